@@ -8,9 +8,9 @@ PEER_BLOCK = BLOCKING_RE + r'|wait::Wait::wait$'
 
 
 def run(ctx):
-    _p11a(ctx)
-    _p11d(ctx)
-    _p11f(ctx)
+    ctx.step(_p11a, ctx)
+    ctx.step(_p11d, ctx)
+    ctx.step(_p11f, ctx)
 
 
 def _leaves_only_param(g, e, param):
